@@ -519,10 +519,9 @@ pub fn make_verifier(spec: &VerifierSpec, km: &KeyMat, arena: &Arena) -> MkV {
     if !spec.proto.available() {
         return Err(format!("{} not compiled into this binary", spec.proto.name()));
     }
-    env::clear_hash_seeds();
-    env::push_hash_seed(spec.hash_seed);
+    env::set_hash_base(spec.hash_seed);
     let r = make_verifier_inner(spec, km, arena);
-    env::clear_hash_seeds();
+    env::set_hash_base(0);
     r
 }
 
@@ -974,7 +973,8 @@ impl World {
 
     pub fn step(&mut self, op: &Op) -> Obs {
         match op {
-            Op::NewBuilder { b, proto, layer, now_ns } => {
+            Op::NewBuilder { b, proto, layer, now_ns, hash_seed } => {
+                env::set_hash_base(*hash_seed);
                 // every further clock read during construction is served 1 ns later
                 env::set_clock(now_ns.0, &[1, 1, 1, 1, 1, 1, 1, 1]);
                 let made = env::guarded(|| make_builder(*proto, *layer));
